@@ -148,11 +148,14 @@ func c13Scenarios(tier string) []*Scenario {
 			t2 := rt.GoNamed("alloc2", func() { r.AllocateCounter("n", map[string]string{"a=b": "c"}).ReportCount(2) })
 			t1.Join()
 			t2.Join()
+			// a further allocation with a tag set of its own (whatever the two left behind in the caches - a lock, a
+			// half-made entry - is in its way)
+			r.AllocateCounter("n", map[string]string{"later": "tag set"}).ReportCount(3)
 			x.Vals["tmax"] = rt.NowNanos()
 			if err := r.Close(); err != nil {
 				x.failf("close-error", "%v", err)
 			}
-			pre, bcl, bdet := closeBarrier(kind, []*fastSink{s}, 2)
+			pre, bcl, bdet := closeBarrier(kind, []*fastSink{s}, 3)
 			x.Vals["pre"] = pre[0]
 			if bcl != "" {
 				x.failf(bcl, "%s", bdet)
@@ -165,7 +168,8 @@ func c13Scenarios(tier string) []*Scenario {
 			if cl != "" {
 				return cl, det, "viol"
 			}
-			want := []string{wantKey("n", 1, 1, 0, 0, map[string]string{"a": "b=c"}), wantKey("n", 1, 2, 0, 0, map[string]string{"a=b": "c"})}
+			want := []string{wantKey("n", 1, 1, 0, 0, map[string]string{"a": "b=c"}), wantKey("n", 1, 2, 0, 0, map[string]string{"a=b": "c"}),
+				wantKey("n", 1, 3, 0, 0, map[string]string{"later": "tag set"})}
 			if cl, det := compareMultisets(got, want); cl != "" {
 				return cl, det, "viol"
 			}
@@ -252,6 +256,11 @@ func c14Scenarios(tier string) []*Scenario {
 				x.failf("second-close-no-error", "a second Close returned nil")
 			}
 			r.AllocateCounter("late", nil).ReportCount(8)
+			// ... also with tag sets the reporter has never seen (nothing it released in Close may be needed for them)
+			r.AllocateCounter("late", map[string]string{"first": "seen after close"}).ReportCount(8)
+			r.AllocateGauge("late", map[string]string{"second": "seen after close"}).ReportGauge(8)
+			r.AllocateTimer("late", map[string]string{"third": "seen after close"}).ReportTimer(9)
+			r.AllocateHistogram("late", map[string]string{"fourth": "seen after close"}, tally.ValueBuckets{1}).ValueBucket(0, 1).ReportSamples(10)
 			x.Vals["done"] = true
 		}
 		sc.Check = func(x *Run, o *rt.Outcome) (string, string, string) {
